@@ -740,4 +740,162 @@ def rule_namekey(ctx) -> RuleResult:
     return res
 
 
-RULES = [rule_pair, rule_rekey, rule_rec, rule_esc, rule_defer, rule_fresh, rule_namekey]
+def _has_call(n, *names) -> bool:
+    """The CFG node evaluates a call to one of the named functions / methods (the body of a `with` is its own nodes)."""
+    if n.ast is None or isinstance(n.ast, list):
+        return False
+    src = [it.context_expr for it in n.ast.items] if n.kind == "with" else [n.ast]
+    return any(isinstance(c, ast.Call) and call_name(c) in names for s_ in src for c in ast.walk(s_))
+
+
+def rule_skip(ctx) -> RuleResult:
+    res = RuleResult(
+        "C04.SKIP",
+        "C04",
+        "no write of concatenated values is skipped on what the values ARE (their length, their closeness to what is stored): "
+        "(a) H5Writer.update_concatenated_field, once the entity is on file and the values it fetched are not None, creates the "
+        "dataset on every normal path (the Index and Data datasets of a name are written by the same code: a length-0 array is a "
+        "value like any other); (b) Concatenator.update_array_attribute removes the old slice (fetch_start_index) and persists "
+        "(save_attribute) on every normal path, and stores the values whenever there are values and `remove` is not set",
+        floor=3,
+    )
+    p = ctx.p
+    # (a) the file writer
+    uc = nview(ctx, "H5Writer.update_concatenated_field")
+    g = CFG(uc.node)
+    sc = Scope(uc, p)
+    creates = [c for c in ast.walk(uc.node) if isinstance(c, ast.Call) and call_name(c) == "create_dataset"]
+    if not creates:
+        raise AnalysisError("H5Writer.update_concatenated_field: create_dataset(...) not found")
+    # the locals the written values flow through: what is handed to create_dataset(data=...), and what those are computed from
+    flow, work = set(), []
+    for c in creates:
+        d = _arg(c, 1, "data")
+        work += [x.id for x in ast.walk(d) if isinstance(x, ast.Name)] if d is not None else []
+    while work:
+        nm = work.pop()
+        if nm in flow or nm in sc.defs.params or not sc.defs.rebound(nm):
+            continue
+        flow.add(nm)
+        for v in sc.defs.of(nm):
+            work += [x.id for x in ast.walk(v) if isinstance(x, ast.Name)]
+    if not flow:
+        raise AnalysisError("H5Writer.update_concatenated_field: the values handed to create_dataset are not a local")
+    # where the values enter: bindings of those locals from something that is not one of them (the fetch from the entity)
+    origins = []
+    for n in g.nodes:
+        if n.kind == "stmt" and isinstance(n.ast, (ast.Assign, ast.AnnAssign)) and getattr(n.ast, "value", None) is not None:
+            tgs = n.ast.targets if isinstance(n.ast, ast.Assign) else [n.ast.target]
+            if any(isinstance(t, ast.Name) and t.id in flow for t in tgs) and not any(isinstance(x, ast.Name) and x.id in flow for x in ast.walk(n.ast.value)) \
+                    and not (isinstance(n.ast.value, ast.Constant) and n.ast.value.value is None):
+                origins.append(n)
+    facts = {"notnone:" + nm: True for nm in flow}
+    # the entity is on file: the handles obtained for it exist
+    facts.update({"notnone:" + nm: True for nm, role in writer_roles(uc.node).items() if role.endswith("handle") or role == "h5file"})
+    starts = [m for o in origins for m, _ in o.succ] or [g.entry]
+    skipped = g.exit in reach(g, starts, uc.params[0] if uc.params else "cls", facts, avoid=lambda n: _has_call(n, "create_dataset"))
+    res.inst(f"H5Writer.update_concatenated_field: values fetched at {len(origins)} site(s); not None => create_dataset on every normal path", nontrivial=True, ok=not skipped)
+    if skipped:
+        res.find("H5Writer", "update_concatenated_field", "values that are not None can leave without create_dataset", uc.where,
+                 "the write of a concatenated array is skipped on a condition about its content (e.g. its length): the Index dataset of a name "
+                 "is written while its Data dataset is not (or a stale one stays deleted) — the file holds an index without the array it tiles "
+                 "and the whole group fails to load")
+    # (b) the concatenator
+    conc = p.cls("Concatenator")
+    ua = nview(ctx, conc.methods["update_array_attribute"])
+    g = CFG(ua.node)
+    usc = Scope(ua, p)
+    ent = ua.params[1]
+    for what, names in (("removes the old slice (fetch_start_index)", ("fetch_start_index",)), ("persists (save_attribute)", ("save_attribute",))):
+        if not any(_has_call(n, *names) for n in g.nodes):
+            raise AnalysisError(f"Concatenator.update_array_attribute: call to {names[0]} not found")
+        missed = g.exit in reach(g, [g.entry], ent, {}, avoid=lambda n, names=names: _has_call(n, *names))
+        res.inst(f"Concatenator.update_array_attribute {what} on every normal path", nontrivial=True, ok=not missed)
+        if missed:
+            res.find("Concatenator", "update_array_attribute", f"a normal path leaves without {names[0]}", ua.where,
+                     "an update of the values of a hole / data set can return before the old slice is removed and the arrays are persisted (a "
+                     "shortcut taken on what the values are): the entity holds the new values, the concatenated array and the file keep the old ones")
+    # with values and without `remove`: the store into self.data[...] is on every normal path
+    stores = [n for n in g.nodes if n.kind == "stmt" and isinstance(n.ast, ast.Assign) and any(usc.text(t).startswith("self.data[") for t in n.ast.targets)]
+    if not stores:
+        raise AnalysisError("Concatenator.update_array_attribute: store into self.data[...] not found")
+    valued = {a.targets[0].id if isinstance(a.targets[0], ast.Name) else None for a in ast.walk(ua.node)
+              if isinstance(a, ast.Assign) and isinstance(a.value, ast.Call) and getattr(a.value.func, "id", None) == "getattr"}
+    valued |= {nm for n in stores for x in ast.walk(n.ast.value) if isinstance(x, ast.Name) for nm in [x.id] if usc.defs.rebound(nm)}
+    facts = {"notnone:" + nm: True for nm in valued if nm}
+    if len(ua.params) > 3:
+        facts.update({"truthy:" + ua.params[3]: False})
+    missed = g.exit in reach(g, [g.entry], ent, facts, avoid=lambda n: n in stores)
+    res.inst("Concatenator.update_array_attribute: values present and remove unset => stored into self.data[...] on every normal path", nontrivial=True, ok=not missed)
+    if missed:
+        res.find("Concatenator", "update_array_attribute", "values can be left unstored although present and `remove` unset", ua.where,
+                 "the new values of a hole / data set are dropped on a condition about their content: the concatenated array keeps the previous values")
+    return res
+
+
+def rule_order(ctx) -> RuleResult:
+    res = RuleResult(
+        "C04.ORDER",
+        "C04",
+        "the group-wide table enumerates the holes in the order of their slices in the concatenated association array: the keys of "
+        "DrillholesGroupTable.index_by_drillhole come from the parent's index records ordered by their 'Start index' (the table's columns "
+        "are cut back per hole by start index when values are added through it)",
+        floor=1,
+    )
+    p = ctx.p
+    fn = nview(ctx, "DrillholesGroupTable.index_by_drillhole")
+    sc = Scope(fn, p)
+    # the mapping that is kept: what is stored into self._index_by_drillhole
+    kept = [a.value for a in ast.walk(fn.node) if isinstance(a, ast.Assign) and any(isinstance(t, ast.Attribute) and t.attr == "_index_by_drillhole" for t in a.targets)
+            and not (isinstance(a.value, ast.Constant) and a.value.value is None)]
+    if not kept:
+        raise AnalysisError("DrillholesGroupTable.index_by_drillhole: store into self._index_by_drillhole not found")
+    names = {v.id for v in kept if isinstance(v, ast.Name)}
+    grown = True
+    while grown:  # the mapping under its other local names
+        grown = False
+        for nm in list(names):
+            for v in sc.defs.of(nm):
+                if isinstance(v, ast.Name) and v.id not in names:
+                    names.add(v.id)
+                    grown = True
+    # where its keys are enumerated: the outer generator of a dict comprehension that defines it, the loop whose variable keys a store into it
+    enums = []
+    for v in kept + [d for nm in names for d in sc.defs.of(nm)]:
+        if isinstance(v, ast.DictComp):
+            enums.append((v.generators[0].iter, v))
+    loops = [lp for lp in ast.walk(fn.node) if isinstance(lp, ast.For)]
+    for x in ast.walk(fn.node):
+        key = None
+        if isinstance(x, ast.Subscript) and isinstance(x.ctx, ast.Store) and isinstance(x.value, ast.Name) and x.value.id in names:
+            key = x.slice
+        elif isinstance(x, ast.Call) and isinstance(x.func, ast.Attribute) and x.func.attr == "setdefault" and isinstance(x.func.value, ast.Name) and x.func.value.id in names and x.args:
+            key = x.args[0]
+        if isinstance(key, ast.Name):
+            for lp in loops:
+                if contains(lp, x) and any(isinstance(t, ast.Name) and t.id == key.id for t in ast.walk(lp.target)):
+                    enums.append((lp.iter, lp))
+    if not enums:
+        raise AnalysisError("DrillholesGroupTable.index_by_drillhole: enumeration of the holes (keys of the mapping) not found")
+    seen = set()
+    for it, at in enums:
+        if id(at) in seen:
+            continue
+        seen.add(id(at))
+        e = sc.expand(it)
+        from_index = any(isinstance(x, ast.Subscript) and isinstance(x.value, ast.Attribute) and x.value.attr in ("index", "_index") for x in ast.walk(e))
+        ordered_by = []
+        for c in ast.walk(e):
+            if isinstance(c, ast.Call) and call_name(c) in ("sort", "sorted", "argsort", "lexsort"):
+                ordered_by.append("'Start index'" in unparse(c))
+        ok = from_index and bool(ordered_by) and all(ordered_by)
+        res.inst(f"index_by_drillhole:{getattr(at, 'lineno', 0)} holes enumerated from the index records ordered by 'Start index'", nontrivial=True, ok=ok)
+        if not ok:
+            how = "not from the parent's index records" if not from_index else "without an ordering by 'Start index'" if not ordered_by else "ordered by another field"
+            res.find("DrillholesGroupTable", "index_by_drillhole", f"holes enumerated {how}", f"{fn.module.relpath}:{getattr(at, 'lineno', fn.node.lineno)}",
+                     "the rows of the group-wide table no longer follow the order of the slices in the concatenated association array: values added "
+                     "through the table are cut at the wrong places — one hole receives the values computed from another")
+    return res
+
+
+RULES = [rule_pair, rule_rekey, rule_rec, rule_esc, rule_defer, rule_fresh, rule_namekey, rule_skip, rule_order]
